@@ -27,6 +27,7 @@ import (
 	"sort"
 	"strconv"
 	"strings"
+	"sync"
 	"time"
 
 	bnet "github.com/bio-routing/bio-rd/net"
@@ -63,8 +64,11 @@ type event struct {
 func parse(in string) ([]event, error) {
 	var evs []event
 	for _, t := range strings.Fields(in) {
+		if t == "live" {
+			continue
+		}
 		switch t[0] {
-		case 'H':
+		case 'H', 'B':
 			p := strings.Split(t[1:], ":")
 			if len(p) != 3 || len(p[2]) != 2 {
 				return nil, fmt.Errorf("bad hello %q", t)
@@ -75,7 +79,7 @@ func parse(in string) ([]event, error) {
 				!strings.ContainsRune("mscnxapil", rune(p[2][0])) || p[2][1] < '0' || p[2][1] > '2' {
 				return nil, fmt.Errorf("bad hello %q", t)
 			}
-			evs = append(evs, event{op: 'H', n: n, hold: h, kind: p[2][0], state: p[2][1] - '0'})
+			evs = append(evs, event{op: t[0], n: n, hold: h, kind: p[2][0], state: p[2][1] - '0'})
 		case 'T':
 			d, err := strconv.Atoi(t[1:])
 			if err != nil || d < 1 || d > 100000 {
@@ -181,7 +185,24 @@ func runCase(id, input string) (res isisx.Result) {
 		return
 	}
 	s.SetEthernetInterfaceFactory(fac)
-	s.SetHostnameFunc(func() (string, error) { return "verif", nil })
+	// generateLocalLSP asks for the host name after it has collected the adjacencies: the place where
+	// something can happen WHILE the LSP is being built
+	var duringBuild func()
+	var duringMu sync.Mutex
+	s.SetHostnameFunc(func() (string, error) {
+		duringMu.Lock()
+		h := duringBuild
+		duringBuild = nil
+		duringMu.Unlock()
+		if h != nil {
+			h()
+		}
+		return "verif", nil
+	})
+	live := strings.HasPrefix(input, "live")
+	if live {
+		s.Start() // real LSP updater routine (and LSDB routines, parked on tickers that never fire here)
+	}
 	s.AddInterface(&server.InterfaceConfig{Name: "eth0", PointToPoint: true,
 		Level2: &server.InterfaceLevelConfig{HelloInterval: 7, HoldingTimer: 21, Metric: 10}})
 	devs.Update("eth0", &isisx.Dev{Index: ifIndex, Oper: device.IfOperUp,
@@ -267,10 +288,32 @@ func runCase(id, input string) (res isisx.Result) {
 		now := clk.Sec()
 		var before [2]nbrObs
 		before, _, _, _ = observe()
+		op := ev.op
+		if op == 'B' {
+			op = 'H' // for the oracle a hello is a hello, whenever it arrives
+		}
 		switch ev.op {
-		case 'H':
+		case 'H', 'B':
 			var perr error
-			oc, val := isisx.Watchdog(func() { perr = s.VerifProcessPkt("eth0", nbrMAC[ev.n], helloFrame(ev)) })
+			var oc string
+			var val interface{}
+			if ev.op == 'B' {
+				// the hello arrives while the LSP updater is building the LSP
+				fired := false
+				duringMu.Lock()
+				duringBuild = func() { fired = true; perr = s.VerifProcessPkt("eth0", nbrMAC[ev.n], helloFrame(ev)) }
+				duringMu.Unlock()
+				oc, val = isisx.Watchdog(func() { s.VerifRequestLSPUpdate() })
+				if q := isisx.Quiesce(); q != "" {
+					oc, val = "blocked", q
+				}
+				if !fired && oc == "ok" {
+					fail("build-hook-not-reached", evname+": the LSP updater did not build an LSP on request")
+				}
+				res.NT = true
+			} else {
+				oc, val = isisx.Watchdog(func() { perr = s.VerifProcessPkt("eth0", nbrMAC[ev.n], helloFrame(ev)) })
+			}
 			if oc != "ok" {
 				obs = append(obs, oc)
 				fail("hello-"+oc, fmt.Sprintf("%s: processing a hello: %s %v", evname, oc, val))
@@ -297,8 +340,8 @@ func runCase(id, input string) (res isisx.Result) {
 			clk.Advance(time.Duration(ev.d) * time.Second)
 			now = clk.Sec()
 			for _, t := range clk.Tickers() {
-				if t.D != time.Second {
-					continue // hello ticker of the interface
+				if t.D != time.Second || (live && t.Seq < 4) {
+					continue // hello ticker of the interface; the LSDB routines' tickers of a started server
 				}
 				if t.TryTick(clk.Now()) {
 					if q := isisx.Quiesce(); q != "" {
@@ -339,13 +382,13 @@ func runCase(id, input string) (res isisx.Result) {
 					fail("up-after-holding-time", fmt.Sprintf("%s is Up at %d although its holding time ended at %d", who, now, sp.expiry))
 				}
 			}
-			if ev.op == 'H' && ev.n == i && strings.ContainsRune("scn", rune(ev.kind)) && x.present && x.state == packet.P2PAdjStateUp {
+			if op == 'H' && ev.n == i && strings.ContainsRune("scn", rune(ev.kind)) && x.present && x.state == packet.P2PAdjStateUp {
 				fail("up-after-mismatch", who+" stays Up after a hello that does not list us")
 			}
-			if ev.op == 'H' && ev.n == i && ev.kind == 'm' && before[i].present && !(x.present && x.state == packet.P2PAdjStateUp) {
+			if op == 'H' && ev.n == i && ev.kind == 'm' && before[i].present && !(x.present && x.state == packet.P2PAdjStateUp) {
 				fail("not-up-after-threeway", who+" exists and received a hello listing us but is not Up")
 			}
-			if strings.ContainsRune("xapil", rune(ev.kind)) && ev.op == 'H' && ev.n == i && x != before[i] {
+			if strings.ContainsRune("xapil", rune(ev.kind)) && op == 'H' && ev.n == i && x != before[i] {
 				fail("invalid-hello-changed-state", who+" changed on a hello that must be rejected/ignored")
 			}
 			// a silent neighbor disappears eventually, whatever state it was in
@@ -396,6 +439,9 @@ func runCase(id, input string) (res isisx.Result) {
 }
 
 func gen(r *hx.RNG, tr *hx.Trace) string {
+	if r.Chance(25) {
+		return genLive(r, tr)
+	}
 	var toks []string
 	nn := 1 + r.Intn(2)
 	holds := []int{0, 1, 2, 3, 5, 9}
@@ -491,4 +537,27 @@ func main() {
 		return true
 	})
 	tr.Close(cfg.Stats, map[string]interface{}{"spec_violations": nviol, "violation_signatures": sigs})
+}
+
+// live cases: the real LSP updater routine runs; B = a hello that arrives while it builds the LSP
+func genLive(r *hx.RNG, tr *hx.Trace) string {
+	toks := []string{"live"}
+	nn := 1 + r.Intn(2)
+	holds := []int{1, 3, 9}
+	n := 4 + r.Intn(10)
+	for i := 0; i < n; i++ {
+		kind := "mmmmmscn"[r.Intn(8)]
+		c := r.Intn(100)
+		switch {
+		case c < 40:
+			toks = append(toks, fmt.Sprintf("H%d:%d:%c%d", r.Intn(nn), holds[r.Intn(3)], kind, r.Intn(3)))
+		case c < 75:
+			toks = append(toks, fmt.Sprintf("B%d:%d:%c%d", r.Intn(nn), holds[r.Intn(3)], kind, r.Intn(3)))
+			tr.Count("hello_during_build")
+		default:
+			toks = append(toks, fmt.Sprintf("T%d", 1+r.Intn(4)))
+		}
+	}
+	tr.Count("live")
+	return strings.Join(toks, " ")
 }
